@@ -333,6 +333,29 @@ def run(tier, seed, model_ok, spec_ok, replay=None):
                                  "x": rt.descr()[:300], "doc": jval(doc)})
             except Exception:
                 pass
+        if i % 8 == 5:
+            # two schemas holding the same rules in a different order, where the order is observable: rules of one path length are
+            # applied in the given order on ONE copy, and the second rule looks (through a data-path argument) at the node the
+            # first one casts.  If such schemas are ==, they must judge alike.
+            from . import schema_common as sc
+            k1, k2 = g.r.sample(["a", "b", "c", 1], 2)
+            sval = g.r.choice(["5", "12", " 3 ", "0", "true"])
+            sdoc = {k1: sval, k2: g.r.choice([5, 12, 3, 0, True, sval]), "z": [1]}
+            ra = RuleT(PathT([Prim(k1)]), g.r.choice([Null(), Leaf("Value", "truthy", [])]), [g.r.choice(["int", "int", "bool"])])
+            rb = RuleT(PathT([Prim(k2)]), Leaf("Value", g.r.choice(["equal_to", "not_equal_to", "in_"]),
+                                               [PathT([Prim(k1)])] if g.r.random() < 0.7 else [[PathT([Prim(k1)]), "zz"]]),
+                       [g.r.choice(["int", "bool"])] if g.r.random() < 0.7 else [])
+            if rb.cond.method == "in_" and not isinstance(rb.cond.args[0], list):
+                rb.cond.args = [[rb.cond.args[0], "zz"]]
+            try:
+                s1, s2 = v.Schema([ra.build(), rb.build()]), v.Schema([rb.build(), ra.build()])
+
+                def beh_schema(sx, ds):
+                    return [E.run_outcome(lambda d=d: sc.impl_validate_schema(sx, copy_value(d))) for d in ds]
+                check_pair("schema", "rules-permuted", s1, s2, ra.descr()[:150] + " ; " + rb.descr()[:150],
+                           rb.descr()[:150] + " ; " + ra.descr()[:150], None, beh_schema, [sdoc])
+            except Exception:
+                pass
     k_bad, o_bad, nk, no, err = run_passes("c14", IMPORTS, cases, model_ok, spec_ok)
     total = sum(dist.values())
     res = {"evaluations": total, "k_cases": nk, "o_cases": total,
